@@ -256,9 +256,22 @@ structure Fn where
 namespace Fn
 open Val
 
-def intOp (f : Int → Int → Out Val) (a b : Val) : Out Val :=
+/-- collect element results, failing at the first failure -/
+def allOk : List (Out Int) → Out (List Int)
+  | [] => .ok []
+  | .ok x :: rest => (allOk rest).map (x :: ·)
+  | .throw :: _ => .throw
+  | .panic :: _ => .panic
+
+/-- `expect_nums_and_vectorize_2` (lib.rs:2294) on integers: the arithmetic operators work on two
+numbers, a number and a vector, or two vectors of equal length (element-wise) -/
+def intOp (f : Int → Int → Out Int) (a b : Val) : Out Val :=
   match a, b with
-  | int x, int y => f x y
+  | int x, int y => (f x y).map int
+  | int x, vec ys => (allOk (ys.map (f x))).map vec
+  | vec xs, int y => (allOk (xs.map (f · y))).map vec
+  | vec xs, vec ys =>
+    if xs.length == ys.length then (allOk (List.zipWith f xs ys)).map vec else .throw
   | _, _ => .throw
 
 /-- `a <=> b` -/
@@ -272,7 +285,7 @@ def spaceship (a b : Val) : Out Val :=
 
 /-- `a %% m` on integers (floor modulo; zero divisor raises) -/
 def modFloor (a m : Val) : Out Val :=
-  intOp (fun x y => if y == 0 then .throw else .ok (int (Int.fmod x y))) a m
+  intOp (fun x y => if y == 0 then .throw else .ok (Int.fmod x y)) a m
 
 def ltV (a b : Val) : Out Val :=
   match ncmp a b with
@@ -297,14 +310,14 @@ def apply (f : Fn) (args : List Val) : Out Val :=
   | "lt", [x] => ltV x f.k
   | "eq", [x] => .ok (ofBool (x == f.k))
   | "mod", [x] => modFloor x f.k
-  | "neg", [x] => intOp (fun a b => .ok (int (a - b))) (int 0) x
+  | "neg", [x] => intOp (fun a b => .ok (a - b)) (int 0) x
   | "wrap", [x] => .ok (list [x])
   | "dup", [x] => .ok (list [x, x])
   | "raise", [x] => if x == f.k then .throw else .ok x
   | "raise1", [x] => if x == f.k then .throw else .ok (int 1)
   -- binary
-  | "add", [a, b] => intOp (fun x y => .ok (int (x + y))) a b
-  | "sub", [a, b] => intOp (fun x y => .ok (int (x - y))) a b
+  | "add", [a, b] => intOp (fun x y => .ok (x + y)) a b
+  | "sub", [a, b] => intOp (fun x y => .ok (x - y)) a b
   | "pair", [a, b] => .ok (list [a, b])
   | "fst", [a, _] => .ok a
   | "snd", [_, b] => .ok b
